@@ -261,7 +261,9 @@ class Run(object):
                     total += 1
                 for a in t["actions"]:
                     item = a.get("item_id")
-                    chain = ("requested", "scheduled", "running") if self.ack_chain else ("running",)
+                    chain = ("requested", "scheduled", "running") if self.ack_chain is True else ("running",)
+                    if self.ack_chain == "lazy":
+                        chain = ("scheduled",)  # the action is queued at the provider; it reports running later
                     for s in chain:
                         evx = (events.TaskItemActionExecutionEvent(item, s) if item is not None
                                else events.ActionExecutionEvent(s))
@@ -289,6 +291,12 @@ class Run(object):
     def complete(self, i, status=None, result=None):
         """report completion of in-flight action i (outcome from the outcome function unless given)"""
         self.step += 1
+        a = self.inflight[i]
+        if self.ack_chain == "lazy" and not a.get("started"):
+            a["started"] = True
+            evs = (events.TaskItemActionExecutionEvent(a["item"], "running") if a["item"] is not None
+                   else events.ActionExecutionEvent("running"))
+            self._call("ack", [a["task"], a["route"], a["item"], "running"], self.c.update_task_state, a["task"], a["route"], evs)
         a = self.inflight.pop(i)
         if status is None:
             status, result = self.outcomes(a)
